@@ -53,4 +53,4 @@ P = {
 import sys
 for pid, d in P.items():
     open("/verif/props/%s.py" % pid, "w").write(T.format(pid=pid, title=d["title"], text=d["text"], note=NOTE, technique=TECH,
-        corr=d["corr"], orc=d["orc"], nq=120, nt=3000, oq=150, ot=4000, extra_assumptions=[]))
+        corr=d["corr"], orc=d["orc"], nq=400, nt=4000, oq=400, ot=5000, extra_assumptions=[]))
